@@ -181,6 +181,26 @@ def run(tier='quick'):
     T13 = chk.rule('T13', '1.x: every statement that selects the crates below a crate excludes the self-parent row '
                           'that marks a root (children, lookup by parent and name)', floor=2)
     self_parent_excluded(prog, cg, eff, chk, T13)
+    T16 = chk.rule('T16', 'the id of a removed crate is never handed out again (ids never collide; a removed crate is never '
+                          'returned by a later query): each statement that creates a crate row either leaves the id to an '
+                          'AUTOINCREMENT column in every version it runs on, or does not compute it from the ids currently '
+                          'stored', floor=4)
+    ids_never_reused(prog, cg, eff, chk, T16)
+    T15 = chk.rule('T15', 'the text that is validated is the text that is stored: no std::string reaches a statement as a '
+                          'C string (data() / c_str()), which ends at the first NUL byte while the name validator and the '
+                          'path builder see the whole string', floor=40)
+    whole_string_binds(prog, eff, chk, T15)
+    T14 = chk.rule('T14', 'an operation that hangs new rows on a crate (create_sub_crate, create_sub_crate_after, add_track, set_parent) '
+                          'establishes before its first write that the row of its own crate still exists and throws '
+                          'otherwise: a handle to a removed crate must not produce a crate whose parent() is not live',
+                   floor=10)
+    for qn in (V1 + 'engine_crate_impl::create_sub_crate', V2 + 'crate_impl::create_sub_crate',
+               V1 + 'engine_crate_impl::create_sub_crate_after', V2 + 'crate_impl::create_sub_crate_after',
+               V1 + 'engine_crate_impl::add_track', V2 + 'crate_impl::add_track',
+               V1 + 'engine_crate_impl::set_parent', V2 + 'crate_impl::set_parent'):
+        liveness_guard(prog, cg, eff, chk, T14, qn, ('crate', 'list', 'playlist'), 'own',
+                       'a handle to a removed crate is accepted: the rows written name a crate that is not live '
+                       '(a sub-crate in no listing whose parent() is invalid; a membership of a crate that does not exist)')
     T12 = chk.rule('T12', 'set_parent refuses a parent handle whose crate has been removed (the parent of a live crate '
                           'is absent or live)', floor=2)
     parent_is_live(prog, cg, eff, chk, T12)
@@ -349,6 +369,155 @@ def parent_is_live(prog, cg, eff, chk, T12):
                               'and is in no children() / root_crates() listing' % (
                                   inst, 'no read of the crate table keyed by the argument\'s id' if not probes
                                   else 'no throw depends on that read'))
+
+
+def ids_never_reused(prog, cg, eff, chk, rid):
+    cats = rowrules.version_catalogs(prog)
+    n = 0
+    for qn in (V1 + 'engine_database_impl::create_root_crate', V1 + 'engine_crate_impl::create_sub_crate',
+               V2 + 'database_impl::create_root_crate', V2 + 'crate_impl::create_sub_crate',
+               V2 + 'crate_impl::create_sub_crate_after'):
+        gen2 = qn.startswith(V2)
+        for f, ip, ret in evaluate(prog, cg, eff, qn):
+            chk.analysed(f)
+            by_site = {}
+            for w in ip.writes:
+                if w.kind == 'insert' and (w.table or '').lower() in ('crate', 'list', 'playlist'):
+                    by_site.setdefault((w.loc, w.table), {})[(w.column or '').lower()] = w.value
+            if not by_site:
+                raise AnalysisBroken('T16: %s reaches no insert into the crate table' % qn)
+            for (loc, table), cols in sorted(by_site.items()):
+                n += 1
+                inst = '%s: INSERT INTO %s at %s' % (_short(qn), table, loc)
+                if 'id' in cols:
+                    sub = _flat(cols['id'])
+                    from_max = [x for x in sub if x[0] == 'op' and isinstance(x[1], str) and x[1].startswith('sql:')
+                                and 'MAX' in x[1].upper()]
+                    if from_max:
+                        chk.violation(rid, '%s|id = MAX(id) + 1' % _short(qn), loc,
+                                      '%s takes the new id from %s: when the crate with the highest id has been removed, '
+                                      'its id is given to the next crate created - crate_by_id of the removed crate finds '
+                                      'a crate again and a handle to the removed crate becomes valid, now naming another '
+                                      'crate' % (inst, from_max[0][1][4:].strip()))
+                    else:
+                        chk.unknown(rid, inst, 'the id is supplied from %s: not judged' % vf.shape(cols['id'])[:60])
+                    continue
+                bad = []
+                seen_table = False
+                for en, c in sorted(cats.items()):
+                    if rowrules._gen2(en) != gen2:
+                        continue
+                    r = rowrules.lookup_table(c, table)
+                    if r is None or r[0] != 'table':
+                        continue
+                    seen_table = True
+                    idc = [x for x in r[1].columns if x.name.lower() == 'id']
+                    if not idc or not getattr(idc[0], 'pk_autoinc', False):
+                        bad.append(en)
+                if not seen_table:
+                    chk.unknown(rid, inst, 'no version of this generation has a table %s' % table)
+                elif bad:
+                    chk.violation(rid, '%s|rowid without AUTOINCREMENT' % _short(qn), loc,
+                                  '%s leaves the id to SQLite, and in %s the id column of %s is a plain INTEGER PRIMARY KEY: '
+                                  'SQLite hands out max(rowid) + 1, so the id of a removed last crate is reused' % (
+                                      inst, ', '.join(bad), table))
+                else:
+                    chk.ok(rid, inst + ': id assigned by an AUTOINCREMENT column in every version that has the table', loc)
+    return n
+
+
+def whole_string_binds(prog, eff, chk, rid):
+    n = 0
+    for f in sorted(prog.functions.values(), key=lambda x: (x.file or '', x.line)):
+        if f.body is None or f.is_pattern or not prog.in_repo(f.file):
+            continue
+        for s_ in eff.sites(f):
+            for b in s_.binds:
+                e = strip(b, explicit=True)
+                t = (e.get('dtype') or e.get('type') or '')
+                stringish = 'basic_string' in t or 'std::string' in t or t.replace('const ', '').strip() in ('char *', 'string') \
+                    or 'char [' in t or 'string_view' in t
+                if not stringish:
+                    continue
+                n += 1
+                inst = '%s: text bind at %s' % (_short(f.qualname), locstr(b))
+                if e.get('kind') == 'CXXMemberCallExpr' and strip(children(e)[0]).get('name') in ('data', 'c_str'):
+                    recv = children(strip(children(e)[0]))
+                    rt = (strip(recv[0]).get('dtype') or strip(recv[0]).get('type') or '') if recv else ''
+                    if 'string' in rt:
+                        chk.analysed(f)
+                        chk.violation(rid, '%s|%s bound as C string' % (_short(f.qualname),
+                                                                       (guards_canon(recv[0]) or '?').split(':')[-1]),
+                                      locstr(b),
+                                      '%s binds %s.%s(): the statement receives the characters up to the first NUL byte, '
+                                      'not the string the function validated - a name beginning with a NUL byte passes '
+                                      'the validator and is stored as the empty name, "A\\0B" is stored as "A" while '
+                                      'the path column gets the whole string' % (
+                                          inst, (guards_canon(recv[0]) or '?').split(':')[-1],
+                                          strip(children(e)[0]).get('name')))
+                        continue
+                chk.ok(rid, inst, locstr(b))
+    return n
+
+
+def guards_canon(n):
+    from .. import guards
+    return guards.canon(n)
+
+
+def liveness_guard(prog, cg, eff, chk, rid, qn, tables, subject, consequence):
+    """Before its first write, every definition of qn reads one of `tables` keyed (column id) by the
+    subject - 'own': the id() of the handle, 'arg': a value derived from a parameter - and a throw that
+    follows that read, with no other read or write in between or inside a call of an existence test, depends
+    on it.  Decided on the value flow (sa/valueflow.py), callees inlined down to the statements."""
+    def is_subject(v):
+        has_in = any(x[0] == 'in' for x in vf.leaves(v))
+        if subject == 'own':
+            return any(x == ('id',) for x in _flat(v)) and not has_in
+        return has_in
+    for f, ip, ret in evaluate(prog, cg, eff, qn):
+        chk.analysed(f)
+        first_write = min([w.seq for w in ip.writes] or [10 ** 9])
+        inst = '%s %s: existence of %s tested before the first write' % (
+            _short(qn), (f.type or '')[:40], 'its own row' if subject == 'own' else 'the row its argument names')
+        probes = []
+        for rd in ip.reads:
+            if rd.seq >= first_write or not (set(_tables_of(rd)) & set(tables)):
+                continue
+            if any(c.lower() == 'id' and is_subject(v) for c, v in (rd.where or {}).items()):
+                probes.append(rd)
+        ok = None
+        for rd in probes:
+            later = sorted([r.seq for r in ip.reads if r.seq > rd.seq] + [first_write])
+            horizon = later[0]
+            for (seq, ty, node, fn, conds) in ip.throws:
+                if not (rd.seq < seq < first_write):
+                    continue
+                dep = False
+                for c in conds:
+                    if seq >= horizon:
+                        continue
+                    sub = _flat(c)
+                    if any(x[0] == 'loc' and (x[1] or '').lower() in tables for x in vf.leaves(c)):
+                        dep = True       # a value fetched from the probed table
+                    if any(x[0] == 'op' and isinstance(x[1], str) and x[1].startswith('sql:') for x in sub):
+                        dep = True       # the result of the probing statement (COUNT(*))
+                    has_in = any(x[0] == 'in' for x in vf.leaves(c))
+                    if any(x[0] in ('call', 'callm') for x in sub) and has_in == (subject != 'own'):
+                        dep = True       # !exists(id) / !is_valid(): the call the read was made in
+                if dep:
+                    ok = (rd, seq, ty)
+                    break
+            if ok:
+                break
+        if ok:
+            chk.ok(rid, inst + ' (throws %s)' % ok[2].split('::')[-1], ok[0].loc)
+        else:
+            chk.violation(rid, '%s|%s|%s row not tested' % (_short(qn), (f.type or '').split('(')[-1].rstrip(')')[:30],
+                                                            'own' if subject == 'own' else 'argument'),
+                          locstr(f.node),
+                          '%s: not so (%s) - %s' % (inst, 'no read of %s keyed by it' % '/'.join(tables) if not probes
+                                                    else 'no throw depends on that read', consequence))
 
 
 def moved_subtree_closure(prog, cg, eff, chk, T8):
